@@ -22,8 +22,8 @@ func Budget(n int) int64 { return int64(200000 * (1 + n*n/100)) }
 type ParseResult struct {
 	Value      any
 	Out        rt.Outcome
-	LiveAtEnd  int // goroutines started by the library that had not finished when ParseSource returned or panicked
-	Leaked     bool   // a scanner goroutine is still parked after the call ended
+	LiveAtEnd  int  // goroutines started by the library that had not finished when ParseSource returned or panicked
+	Leaked     bool // a scanner goroutine is still parked after the call ended
 	LeakWhere  string
 	ParserHung bool // the calling thread itself is parked forever
 	LibPanic   string
